@@ -735,6 +735,14 @@ class TransactionBuilder:
                 # if we enforce that TransactionOutputs must use Values for `amount`, we can use += here
 
             else:
+                if merge_change:
+                    # These changes were computed without the minimum-ADA check (they were meant
+                    # to be merged) but become outputs of their own.
+                    for c in changes:
+                        if c.amount.coin < min_lovelace_post_alonzo(c, self.context):
+                            raise InsufficientUTxOBalanceException(
+                                f"Not enough ADA left for change output: {c.amount.coin}"
+                            )
                 self._outputs += changes
 
         if change_address:
